@@ -18,7 +18,12 @@ use super::Rule;
 use crate::base::{ReadStat, StatNode, TokenResult, WriteStat};
 #[cfg(feature = "exporter")]
 use crate::core::base::rule::SentinelRule;
+#[cfg(not(sentinel_verif))]
 use std::sync::{Arc, Mutex, Weak};
+#[cfg(sentinel_verif)]
+use std::sync::{Arc, Weak};
+#[cfg(sentinel_verif)]
+use crate::verif_sync::{Mutex};
 
 /// Traffic Shaping `Calculator` calculates the actual traffic shaping threshold
 /// based on the threshold of rule and the traffic shaping strategy.
